@@ -32,11 +32,49 @@ use rustc_middle::mir::{
 use rustc_middle::ty::{self, Instance, Ty, TyCtxt, TyKind, TypingEnv};
 use rustc_span::Span;
 
-struct Cb;
+struct Cb {
+    early: std::collections::HashMap<String, String>,
+}
+
+fn wanted_crate(tcx: TyCtxt<'_>) -> bool {
+    if std::env::var("FACTX_OUT").is_err() {
+        return false;
+    }
+    let wanted = std::env::var("FACTX_CRATES").unwrap_or_else(|_| "brc20_prog".to_string());
+    let name = tcx.crate_name(rustc_hir::def_id::LOCAL_CRATE).to_string();
+    wanted.split(',').any(|w| w == name)
+}
 
 impl rustc_driver::Callbacks for Cb {
     fn config(&mut self, config: &mut rustc_interface::interface::Config) {
         config.opts.unstable_opts.mir_opt_level = Some(0);
+    }
+
+    fn after_expansion<'tcx>(
+        &mut self,
+        _compiler: &rustc_interface::interface::Compiler,
+        tcx: TyCtxt<'tcx>,
+    ) -> Compilation {
+        if !wanted_crate(tcx) {
+            return Compilation::Continue;
+        }
+        // Coroutine bodies: dump the pre-state-transform MIR now; after analysis their
+        // drop-elaborated MIR has been stolen by optimized_mir (needed for layout).
+        let mut dumper = Dumper { tcx, unsafe_blocks: 0, early: None };
+        for ldid in tcx.hir_body_owners() {
+            let did = ldid.to_def_id();
+            if tcx.def_kind(did) == DefKind::Closure && tcx.is_coroutine(did) {
+                let (steal, _) = tcx.mir_promoted(ldid);
+                if steal.is_stolen() {
+                    continue;
+                }
+                let body = steal.borrow();
+                let mut j = dumper.dump_body(ldid, &body);
+                j.set("phase", J::s("promoted"));
+                self.early.insert(uniq_path(tcx, did), j.to_string());
+            }
+        }
+        Compilation::Continue
     }
 
     fn after_analysis<'tcx>(
@@ -79,7 +117,7 @@ impl rustc_driver::Callbacks for Cb {
         root.set("features", J::Arr(feats.iter().map(|f| J::s(f)).collect()));
         root.set("nonce", J::s(&std::env::var("FACTX_NONCE").unwrap_or_default()));
         root.set("rustc", J::s(&format!("{}", rustc_interface::util::rustc_version_str().unwrap_or("?"))));
-        let mut dumper = Dumper { tcx, unsafe_blocks: 0 };
+        let mut dumper = Dumper { tcx, unsafe_blocks: 0, early: Some(std::mem::take(&mut self.early)) };
         root.set("fns", dumper.dump_bodies());
         root.set("adts", dumper.dump_adts());
         root.set("impls", dumper.dump_impls());
@@ -97,6 +135,7 @@ impl rustc_driver::Callbacks for Cb {
 struct Dumper<'tcx> {
     tcx: TyCtxt<'tcx>,
     unsafe_blocks: usize,
+    early: Option<std::collections::HashMap<String, String>>,
 }
 
 fn uniq_path(tcx: TyCtxt<'_>, did: DefId) -> String {
@@ -243,6 +282,11 @@ impl<'tcx> Dumper<'tcx> {
 
     fn dump_mir(&mut self, ldid: LocalDefId) -> J {
         let tcx = self.tcx;
+        if let Some(early) = &self.early {
+            if let Some(s) = early.get(&uniq_path(tcx, ldid.to_def_id())) {
+                return J::Raw(s.clone());
+            }
+        }
         let steal = tcx.mir_drops_elaborated_and_const_checked(ldid);
         if steal.is_stolen() {
             // fall back to optimized MIR (mir-opt-level=0)
@@ -725,6 +769,18 @@ impl<'tcx> Dumper<'tcx> {
                 o.set("place", self.place(body, *p));
                 let pty = p.ty(body, tcx).ty;
                 o.set("ty", J::s(&self.ty_s(pty)));
+                if let TyKind::Adt(adt, _) = pty.kind() {
+                    if adt.is_enum() {
+                        let mut vs = Vec::new();
+                        for (vi, d) in adt.discriminants(tcx) {
+                            let mut vo = J::obj();
+                            vo.set("name", J::s(adt.variant(vi).name.as_str()));
+                            vo.set("val", if d.val <= i128::MAX as u128 { J::Num(d.val as i128) } else { J::s(&format!("{}", d.val)) });
+                            vs.push(vo);
+                        }
+                        o.set("variants", J::Arr(vs));
+                    }
+                }
             }
             Rvalue::Aggregate(ak, ops) => {
                 o.set("k", J::s("agg"));
@@ -1177,6 +1233,6 @@ fn main() {
     if args.len() > 1 && (args[1].ends_with("rustc") || args[1].contains("/rustc")) {
         args.remove(1);
     }
-    let mut cb = Cb;
+    let mut cb = Cb { early: Default::default() };
     rustc_driver::catch_with_exit_code(|| rustc_driver::run_compiler(&args, &mut cb));
 }
